@@ -1,7 +1,5 @@
 import logging
 
-import numpy as np
-
 from ..decorators import (
     _display_or_return,
     _inplace_enabled,
@@ -415,9 +413,13 @@ class PropertiesDataBounds(PropertiesData):
                 x = b.get_property(prop, c.get_property(prop, None))
                 if x is not None:
                     # Note: 'missing_value' may be a vector
-                    fill_values.extend(np.ravel(x))
+                    fill_values.append(x)
 
-            kwargs = {"inplace": True, "fill_values": fill_values}
+            kwargs = {
+                "inplace": True,
+                "fill_values": fill_values,
+                "safe_cast": True,
+            }
 
             for prop in ("valid_min", "valid_max", "valid_range"):
                 kwargs[prop] = b.get_property(prop, c.get_property(prop, None))
